@@ -11,6 +11,7 @@ from typing import List, Optional, Tuple, Union
 
 from metasequoia_sql.common import TokenScanner
 from metasequoia_sql.common import name_set
+from metasequoia_sql.common.basic import is_int_literal
 from metasequoia_sql.core import node, static
 from metasequoia_sql.core.sql_type import SQLType
 from metasequoia_sql.errors import SqlParseError
@@ -114,6 +115,14 @@ class SQLParser:
         if not scanner.search_one_type_mark(AMTMark.NAME):
             raise SqlParseError(f"无法解析为名称: {scanner}")
         return cls._unify_name(scanner.pop_as_source())
+
+    @classmethod
+    def _pop_as_int(cls, scanner: TokenScanner) -> int:
+        """获取整型：如果当前元素不是整型字面值，则抛出异常"""
+        source = scanner.pop_as_source()
+        if not is_int_literal(source):
+            raise SqlParseError(f"无法解析为整型: {source}")
+        return int(source)
 
     @classmethod
     def _parse_config_string(cls, scanner: TokenScanner) -> str:
@@ -372,7 +381,7 @@ class SQLParser:
             if scanner.search_and_move_one_type_str_use_upper("FOLLOWING"):
                 return node.ASTWindowRowItem(row_type=static.EnumWindowRowType.FOLLOWING, is_unbounded=True)
             raise SqlParseError(f"无法解析的窗口函数限制行: {scanner}")
-        row_num = int(scanner.pop_as_source())
+        row_num = cls._pop_as_int(scanner)
         if scanner.search_and_move_one_type_str_use_upper("PRECEDING"):
             return node.ASTWindowRowItem(row_type=static.EnumWindowRowType.PRECEDING, row_num=row_num)
         if scanner.search_and_move_one_type_str_use_upper("FOLLOWING"):
@@ -496,9 +505,9 @@ class SQLParser:
             parenthesis_scanner = inner_scanner.pop_as_children_scanner()
             cast_params: Optional[List[int] | Tuple[int, ...]] = []
             if not parenthesis_scanner.is_finish:
-                cast_params.append(int(parenthesis_scanner.pop_as_source()))
+                cast_params.append(cls._pop_as_int(parenthesis_scanner))
             while parenthesis_scanner.search_and_move_one_type_str(","):
-                cast_params.append(int(parenthesis_scanner.pop_as_source()))
+                cast_params.append(cls._pop_as_int(parenthesis_scanner))
             cast_params = tuple(cast_params)
         else:
             cast_params = None
@@ -1642,7 +1651,7 @@ class SQLParser:
         max_length = None
         if scanner.search_one_type_mark(AMTMark.PARENTHESIS):
             parenthesis_scanner = scanner.pop_as_children_scanner()
-            max_length = int(parenthesis_scanner.pop_as_source())
+            max_length = cls._pop_as_int(parenthesis_scanner)
             parenthesis_scanner.close()
         return node.ASTIndexColumn(name=name, max_length=max_length)
 
@@ -1669,7 +1678,7 @@ class SQLParser:
         columns = cls._get_index_columns(scanner)
         using = scanner.pop_as_source() if scanner.search_and_move_one_type_str_use_upper("USING") else None
         comment = scanner.pop_as_source() if scanner.search_and_move_one_type_str_use_upper("COMMENT") else None
-        key_block_size = (int(scanner.pop_as_source())
+        key_block_size = (cls._pop_as_int(scanner)
                           if scanner.search_and_move_two_type_str_use_upper("KEY_BLOCK_SIZE", "=") else None)
         return node.ASTPrimaryIndexExpression(columns=columns, using=using, comment=comment,
                                               key_block_size=key_block_size)
@@ -1689,7 +1698,7 @@ class SQLParser:
         columns = cls._get_index_columns(scanner)
         using = scanner.pop_as_source() if scanner.search_and_move_one_type_str_use_upper("USING") else None
         comment = scanner.pop_as_source() if scanner.search_and_move_one_type_str_use_upper("COMMENT") else None
-        key_block_size = (int(scanner.pop_as_source())
+        key_block_size = (cls._pop_as_int(scanner)
                           if scanner.search_and_move_two_type_str_use_upper("KEY_BLOCK_SIZE", "=") else None)
         return node.ASTUniqueIndexExpression(name=name, columns=columns, using=using, comment=comment,
                                              key_block_size=key_block_size)
@@ -1709,7 +1718,7 @@ class SQLParser:
         columns = cls._get_index_columns(scanner)
         using = scanner.pop_as_source() if scanner.search_and_move_one_type_str_use_upper("USING") else None
         comment = scanner.pop_as_source() if scanner.search_and_move_one_type_str_use_upper("COMMENT") else None
-        key_block_size = (int(scanner.pop_as_source())
+        key_block_size = (cls._pop_as_int(scanner)
                           if scanner.search_and_move_two_type_str_use_upper("KEY_BLOCK_SIZE", "=") else None)
         return node.ASTNormalIndexExpression(name=name, columns=columns, using=using, comment=comment,
                                              key_block_size=key_block_size)
@@ -1728,7 +1737,7 @@ class SQLParser:
         columns = cls._get_index_columns(scanner)
         using = scanner.pop_as_source() if scanner.search_and_move_one_type_str_use_upper("USING") else None
         comment = scanner.pop_as_source() if scanner.search_and_move_one_type_str_use_upper("COMMENT") else None
-        key_block_size = (int(scanner.pop_as_source())
+        key_block_size = (cls._pop_as_int(scanner)
                           if scanner.search_and_move_two_type_str_use_upper("KEY_BLOCK_SIZE", "=") else None)
         return node.ASTFulltextIndexExpression(name=name, columns=columns, using=using, comment=comment,
                                                key_block_size=key_block_size)
@@ -1971,7 +1980,7 @@ class SQLParser:
                 engine = scanner.pop_as_source()
             elif scanner.search_and_move_one_type_str_use_upper("AUTO_INCREMENT"):
                 scanner.search_and_move_one_type_str("=")
-                auto_increment = int(scanner.pop_as_source())
+                auto_increment = cls._pop_as_int(scanner)
             elif scanner.search_and_move_two_type_str_use_upper("DEFAULT", "CHARSET"):
                 scanner.search_and_move_one_type_str("=")
                 default_charset = scanner.pop_as_source()
